@@ -151,10 +151,14 @@ def symbol(name):
 
 
 def port(port_no, link):
+    ext = b""
+    if port_no > 14:  # extended port identifier: field = 15, 16-bit number after the optional link size
+        ext = port_no.to_bytes(2, "little")
+        port_no = 15
     if len(link) == 1:
-        out = bytes([port_no]) + link
+        out = bytes([port_no]) + ext + link
     else:
-        out = bytes([0x10 | port_no, len(link)]) + link
+        out = bytes([0x10 | port_no, len(link)]) + ext + link
     if len(out) % 2:
         out += b"\x00"
     return out
